@@ -30,7 +30,7 @@ PROP = dict(
         "max_code_point_phrase_fixed)",
         "the leaf comparator of TrieBuilder::write is a total preorder on all leaves since repository fix ddfe893 (model follows it; "
         "leaf_order_any_stable_sort: the model's leaf does not depend on the algorithm slice::sort_by runs)",
-        "no excluded class: F36 (FuzzyOverTombstoneOrPending, prefix lookups over pending / tombstoned entries) is repaired by fix 097161a; "
+        "no excluded class: F36 (FuzzyOverTombstoneOrPending, prefix lookups over pending / tombstoned entries) is repaired by fix c3d9fb2; "
         "the prefix-lookup SPECIFICATION IsFuzzyLookup is order-free (each text live under a matching key once, value of one such key, highest "
         "frequency); the ORDER of the repaired code is stated as an equation (fuzzy_order) and compared record by record. Prefix matching = same "
         "number of syllables and stored.starts_with(query) per syllable (Trie.fuzzyMatch; its `n != 0` guard is vacuous on a Vec<Syllable>)",
@@ -50,7 +50,7 @@ MANIFEST = dict(
          "every operation history (invariant + snapshot lemma: the file built from entries() denotes the same map); add is "
          "rejected exactly on live keys; EXACT LOOKUPS AND THE ENUMERATION ARE THE MAP'S IN EVERY STATE of every history, in-memory "
          "or file-backed, with no precondition on the calls (lookup_exact, entries_exact; on an exact lookup "
-         "the de-duplication loop is the identity, lookup_is_candidates); since fix 097161a (F36) PREFIX lookups are the map's in every state "
+         "the de-duplication loop is the identity, lookup_is_candidates); since fix c3d9fb2 (F36) PREFIX lookups are the map's in every state "
          "too, so the FULL statement is a theorem: C09 : C09_full (refinement + exact + prefix + enumeration answers, every history, no "
          "excluded class, no side condition; fuzzy_exact, fuzzy_phrases, triebuf_refines_full; the former refutation witnesses are the "
          "regression theorems fuzzy_pending_repaired, fuzzy_tombstone_repaired, fuzzy_shadow_repaired); the specification of a prefix lookup is "
@@ -67,7 +67,7 @@ MANIFEST = dict(
          "a reference-map oracle on the implementation that yields the concrete failing history.",
     note="Five fix: commits in the repository (F09 tombstone lifted on add/update, F11 Trie first-n truncation, F10 a pending entry "
          "replaces the persisted one with the same key in entries() and lookups, C09-N1 the pending range is no longer cut at U+10FFFF; "
-         "regression theorems update_persisted_fixed, max_code_point_phrase_fixed) plus F36 (097161a): a prefix lookup of TrieBuf is answered "
+         "regression theorems update_persisted_fixed, max_code_point_phrase_fixed) plus F36 (c3d9fb2): a prefix lookup of TrieBuf is answered "
          "from the merged view entries_iter() — pending over persisted, minus tombstones, each keyed by the entry's OWN key — filtered by Trie's "
          "per-syllable match; no change to Trie, exact lookups untouched. No known finding is left for C09: every failing exact, prefix or "
          "enumeration answer is reported as new. Side effect on the editor family: their harness layers are in-memory TrieBufs, whose prefix "
